@@ -759,4 +759,14 @@ def grade_idempotent(repo: Repo) -> RuleRun:
 
 grade_idempotent.rule_id = "C01.GRADE-IDEMPOTENT"
 
-RULES = [grade_before_write, consistency_reach, axis_table, count_carried, neighbour_symmetry, coincidence_symmetry, grade_idempotent]
+def chopped_wires(repo: Repo) -> RuleRun:
+    """'the count in the hex entry is the count on the block's edges': a chopped axis grades its wires from its own chops, whatever the neighbours carry already. Same rule as C04.RESULTS-BEFORE-COPY."""
+    from ..report import rebrand
+    from . import c04
+
+    return rebrand(c04.results_before_copy(repo), PROP, "C01.CHOPPED-WIRES")
+
+
+chopped_wires.rule_id = "C01.CHOPPED-WIRES"
+
+RULES = [grade_before_write, consistency_reach, axis_table, count_carried, neighbour_symmetry, coincidence_symmetry, grade_idempotent, chopped_wires]
